@@ -110,12 +110,16 @@ pub fn read_programs(path: &str) -> Vec<Value> {
     v
 }
 
+thread_local! { static GUARD_DEPTH: std::cell::Cell<u32> = const { std::cell::Cell::new(0) }; }
 thread_local! { static LAST_PANIC_LOC: std::cell::RefCell<String> = const { std::cell::RefCell::new(String::new()) }; }
 
 /// Run `f`; a panic of the code under test is data, not a tool failure.
 /// The message is followed by the source location when `quiet_panics` is installed.
 pub fn guarded<T>(f: impl FnOnce() -> T) -> Result<T, String> {
-    catch_unwind(AssertUnwindSafe(f)).map_err(|e| {
+    GUARD_DEPTH.with(|d| d.set(d.get() + 1));
+    let r = catch_unwind(AssertUnwindSafe(f));
+    GUARD_DEPTH.with(|d| d.set(d.get() - 1));
+    r.map_err(|e| {
         let msg = if let Some(s) = e.downcast_ref::<&str>() {
             (*s).to_string()
         } else if let Some(s) = e.downcast_ref::<String>() {
@@ -133,6 +137,10 @@ pub fn guarded<T>(f: impl FnOnce() -> T) -> Result<T, String> {
 pub fn quiet_panics() {
     std::panic::set_hook(Box::new(|info| {
         let loc = info.location().map(|l| format!("{}:{}", l.file(), l.line())).unwrap_or_default();
+        if GUARD_DEPTH.with(std::cell::Cell::get) == 0 {
+            // not inside `guarded`: a bug of the driver itself (or a library thread) - make it visible
+            eprintln!("PANIC outside guarded code at {loc}: {info}");
+        }
         LAST_PANIC_LOC.with(|l| *l.borrow_mut() = loc);
     }));
 }
